@@ -265,16 +265,17 @@ def _portfolio(text, timeout_s, value_names, solvers=("z3old", "z3new", "cvc5"))
         gv = "(get-value (%s))\n" % " ".join("|%s|" % v for v in value_names)
     procs = {}
     files = []
+    logic = "QF_NIRA" if " Int)" in text else "QF_NRA"
     for name in solvers:
         path = os.path.join(d, "q_%s_%s.smt2" % (stamp, name))
         files.append(path)
         with open(path, "w") as f:
             if name == "cvc5":
-                f.write("(set-option :produce-models true)\n(set-logic QF_NRA)\n")
+                f.write("(set-option :produce-models true)\n(set-logic %s)\n" % logic)
             else:
                 f.write("(set-option :pp.decimal true)\n(set-option :pp.decimal_precision 17)\n")
                 if name == "z3old":
-                    f.write("(set-logic QF_NRA)\n")
+                    f.write("(set-logic %s)\n" % logic)
             f.write(text + "\n(check-sat)\n" + gv)
         if name == "z3old":
             cmd = [Z3OLD, "-smt2", "-T:%d" % int(timeout_s), path]
